@@ -81,6 +81,22 @@ pub fn gen(out: &mut Out, ex: &mut Exec, _seed: u64, _thorough: bool) {
             out.op(&line, &r); out.evaluations += 1;
         } }
     }
+    // minus-signed literals: -v fits an N-bit signed position exactly when v <= 2^(N-1); an unsigned position (TRAP vector,
+    // .orig address; `.blkw 0` is rejected for another reason) accepts a minus-signed literal exactly when it is zero (`#-0`, `-0`, `x-0`)
+    for (pre, n, signed) in [("ADD R0, R0, ", 5u32, true), ("LDR R0, R1, ", 6, true), ("BRnzp ", 9, true), ("LD R0, ", 9, true), ("JSR ", 11, true), ("TRAP ", 8, false), (".orig ", 16, false)] {
+        let half = 1u32 << (n - 1);
+        let mut vals: Vec<u32> = vec![0, 1, 2, half - 1, half, half + 1, 2 * half - 1, 2 * half, 0x7FFF, 0x8000];
+        vals.sort(); vals.dedup();
+        for v in vals { for t in [format!("#-{v}"), format!("x-{:X}", v), format!("-{v}")] {
+            let text = format!("{pre}{t}");
+            let line = format!("parse {}", crate::c25::hexs(text.as_bytes()));
+            let r = ex.line(&line);
+            let accept = if signed { v <= half } else { v == 0 };
+            if r.starts_with("ok 1 ::") != accept { out.fail(out.lines, format!("`{text}`: accepted={}, expected {accept} ({r})", r.starts_with("ok 1 ::")), line.clone()); }
+            out.hist.hit(if accept { "parsed_negative_literal_fits" } else { "parsed_negative_literal_rejected" });
+            out.op(&line, &r); out.evaluations += 1;
+        } }
+    }
     // N outside 1..=16 panics (documented); two instances, outside the property's quantifier.
     for line in ["off S 17 0012", "off U 0 0000"] { let r = ex.line(line); out.op(line, &r); }
 }
